@@ -324,6 +324,7 @@ class ModuleState:
                 self.n_globals += 1
                 self.walk(v, 0, f'{name}.{k}', name)
         self.walk(w.app, 0, 'app', None)
+        self.names0 = self._names()
 
     def walk(self, obj, depth, where, modname):
         import collections
@@ -361,8 +362,7 @@ class ModuleState:
                         self.walk(cell.cell_contents, depth + 1, where, modname)
                     except ValueError:
                         pass
-                if f.__dict__:
-                    self.walk(f.__dict__, depth + 1, where, modname)
+                self.walk(f.__dict__, depth + 1, where, modname)   # function attributes, present or added later
             return
         if isinstance(obj, type):
             if (obj.__module__ or '').split('.')[0] in WALK_ROOTS[:3]:
@@ -399,16 +399,25 @@ class ModuleState:
         for f in self.lru:
             f.cache_clear()
 
-    def new_globals(self):
-        """Mutable module globals created after the snapshot (e.g. a lazily created cache): report, they cannot be reset."""
+    def _names(self):
         import sys
 
-        n = 0
+        out = set()
         for name, mod in sorted(sys.modules.items()):
             if mod is None or not (name in WATCHED_MODULES or name.startswith(WATCHED_PREFIXES)):
                 continue
-            n += sum(1 for k in vars(mod) if not (k.startswith('__') and k.endswith('__')))
-        return n - self.n_globals
+            for k, v in list(vars(mod).items()):
+                if k.startswith('__') and k.endswith('__'):
+                    continue
+                out.add(f'{name}.{k}')
+                if isinstance(v, type) and v.__module__ == name:
+                    out.update(f'{name}.{k}.{a}' for a in vars(v) if not (a.startswith('__') and a.endswith('__')))
+        return out
+
+    def drift(self):
+        """Module globals / class attributes created after the snapshot (e.g. a lazily created cache): they are outside the
+        snapshot and cannot be put back between histories -> reported."""
+        return sorted(self._names() - self.names0)
 
 
 async def _drain(w):
@@ -983,18 +992,34 @@ def _count(it):
 
 
 def _run_chunk(chunk):
-    return [run_case(c) for c in chunk]
+    rows = [run_case(x[1]) if x[0] == 'case' else run_history(x[1]) for x in chunk]
+    ms = world()[0].c14_modstate
+    return rows, list(ms.unknown), ms.drift(), len(ms.saved)
+
+
+def _hkey(h):
+    return json.dumps(h, sort_keys=True, default=list)
 
 
 def check(tier, seed, procs):
     from vf import boot  # noqa: F401
 
     cases, unclassified, norequest = all_cases(tier)
-    ordered = par.rotate(cases, seed)
-    n = max(1, min(len(ordered), procs * 4))
+    histories = all_histories(tier)
+    items = [('case', c) for c in cases] + [('hist', h) for h in histories]
+    ordered = par.rotate(items, seed)
+    n = max(1, min(len(ordered), procs * 6))
     chunks = [ordered[i::n] for i in range(n)]
-    rows = [r for c in par.pmap(_run_chunk, chunks, procs, chunksize=1) for r in c]
+    results = par.pmap(_run_chunk, chunks, procs, chunksize=1)
+    all_rows = [r for c in results for r in c[0]]
+    unresettable = sorted({u for c in results for u in c[1]})
+    drift = sorted({u for c in results for u in c[2]})
+    n_registered = max(c[3] for c in results)
+    rows = [r for r in all_rows if 'history' not in r]
+    hrows = [r for r in all_rows if 'history' in r]
     rows.sort(key=lambda r: (r['case'][0], CALLER_ORDER.index(r['caller']), str(r['target']), r['case'][3]))
+    hrows.sort(key=lambda r: (r['history'][3] is not None, HISTORY_COMBOS.index((tuple(r['history'][0]), r['history'][1], r['history'][2])),
+                              r['history'][3] or [], r['history'][4]))
 
     violations = []
     seen = set()
@@ -1020,6 +1045,18 @@ def check(tier, seed, procs):
             seen.add(sig)
             violations.append({'signature': sig, 'message': msg + f'  [{n_by_sig[sig]} case(s) with this signature]',
                                'replay': {'case': r['case'], 'route': r['route']}})
+    # histories: shortest first
+    hseen, n_by_hsig = set(), {}
+    for r in hrows:
+        for sig, _ in r['viol']:
+            n_by_hsig[sig] = n_by_hsig.get(sig, 0) + 1
+    for r in hrows:
+        for sig, msg in r['viol']:
+            if sig in hseen:
+                continue
+            hseen.add(sig)
+            violations.append({'signature': sig, 'message': msg + f'  [{n_by_hsig[sig]} histories with this signature]',
+                               'replay': {'history': r['history'], 'steps': r['steps']}})
     violations.sort(key=lambda v: v['signature'])
 
     table = route_table()
@@ -1030,10 +1067,14 @@ def check(tier, seed, procs):
             'inside: served or business answer' if r['may'] and not r['viol'] else 'violation'
         by_verdict[verdict] = by_verdict.get(verdict, 0) + 1
         by_status[str(r['status'])] = by_status.get(str(r['status']), 0) + 1
-    exceptions = sorted({(r['route'], r['status']) for r in rows if str(r['status']).startswith('exception')})
+    exceptions = sorted({(r['route'], r['status']) for r in all_rows if str(r['status']).startswith('exception')})
     unknown_exc = [e for e in exceptions if e not in KNOWN_EXCEPTIONS]
     if unknown_exc and not violations:
         raise RuntimeError(f'C14 harness: handler raised unexpected non-HTTP exceptions (harness gap?): {unknown_exc}')
+    if (unresettable or drift) and not violations:
+        raise RuntimeError('C14 harness: mutable state of the service process that the harness can neither prove immutable nor put back '
+                           f'between histories (histories are not isolated from each other): module globals of unknown kind {unresettable}; '
+                           f'globals / class attributes created while serving requests {drift}')
     served_insiders = sum(1 for r in rows if r['must'] and (r['status'] == 200 or r['status'] in (302, 303) and not r['login_redirect']))
     changed_insiders = sum(1 for r in rows if r['may'] and r['changed'])
     nontrivial = {(r['route'], r['caller'], str(r['target']), r['variant']) for r in rows
@@ -1046,11 +1087,40 @@ def check(tier, seed, procs):
             if pred(r):
                 samples.append({k: r.get(k) for k in ('route', 'caller', 'target', 'variant', 'status', 'may', 'changed', 'listed')})
                 break
+    h_changed = [r for r in hrows if r['rights_changed']]
+    h3_served_then_outside = sum(1 for r in hrows if r['history'][3] is not None and r['rights_before'][0] and not r['may']
+                                 and r['r1_status'] in (200, 302))
+    h_gained_served = sum(1 for r in hrows if not r['rights_before'][0] and r['must'] and r['status'] in (200, 302))
+    hist_cov = {
+        'histories': len(hrows),
+        'two_step': sum(1 for r in hrows if r['history'][3] is None),
+        'three_step': sum(1 for r in hrows if r['history'][3] is not None),
+        'combos (operation, caller, batch)': [f'{" ".join(map(str, op))} / {c} / batch {b}' for op, c, b in HISTORY_COMBOS],
+        'second_requests': 'quick: r2 in {r1} + probes ' + str([f'{m} {p}' for m, p in PROBES]) + ' (all batch-scoped requests when there is no r1); '
+                           'thorough: every batch-scoped request after every batch-scoped request',
+        'operations_by_answer': _count(f'{r["history"][0][0]} -> {r["op_status"]}' for r in hrows),
+        'histories_where_the_operation_changed_the_callers_rights': len(h_changed),
+        'served_before_then_outside_after (r1 served, r2 must be refused)': h3_served_then_outside,
+        'outside_before_then_inside_after_and_served': h_gained_served,
+        'verdicts': _count(('violation' if r['viol'] else 'outside-refused' if not r['may'] else 'inside-ok') for r in hrows),
+        'violating_histories_by_length': _count(('3-step' if r['history'][3] is not None else '2-step') for r in hrows if r['viol']),
+        'service_state_objects_snapshotted_and_restored_per_history': n_registered,
+        'unresettable_module_globals': unresettable,
+        'module_globals_created_while_serving': drift,
+    }
+    nontrivial |= {('history', _hkey(r['history'])) for r in hrows if not r['may'] or r['must']}
+    for r in hrows:
+        if r['history'][3] is not None and r['rights_before'][0] and not r['may'] and r['r1_status'] == 200:
+            samples.append({'history': r['steps'], 'may_after': r['may'], 'changed_by_r2': r['changed']})
+            break
     cov = {
-        'evaluations': len(rows),
+        'evaluations': len(rows) + len(hrows),
+        'single_request_cases': len(rows),
+        'history_phase': hist_cov,
         'distinct_nontrivial': len(nontrivial),
         'rule': 'one evaluation = (registered route, caller, target batch / billing project, request variant) sent through the real decorator '
-                'stack; non-trivial = a non-public route where the caller is either outside the class (must be refused, state unchanged) or '
+                'stack from the seeded state, or one history [request by c]; [membership / ownership / account change through the real '
+                'routes]; [request by c] on one service process judged against the truth after the change; non-trivial = a non-public route where the caller is either outside the class (must be refused, state unchanged) or '
                 'squarely inside it on an existing target (must not be refused for authentication / authorisation)',
         'samples': samples,
         'exhaustive': True,
@@ -1073,6 +1143,8 @@ def check(tier, seed, procs):
     vac = None
     if len(table) < 40 or served_insiders < 100 or changed_insiders < 20 or by_verdict.get('outside: refused, state unchanged', 0) < 500:
         vac = f'too little exercised: routes={len(table)} served_insiders={served_insiders} changed={changed_insiders} verdicts={by_verdict}'
+    elif h3_served_then_outside < 200 or h_gained_served < 20:
+        vac = f'history phase too thin: served-then-outside={h3_served_then_outside} gained-and-served={h_gained_served}'
     return {'coverage': cov, 'violations': violations, 'assumptions': ASSUME, 'vacuous': vac}
 
 
@@ -1114,5 +1186,9 @@ def replay(obj):
         present = any(m == mm and p == pp for _, mm, pp, _, _ in route_table())
         bad = present and (cls is None or not request_variants(m, p, cls, targets_for(cls)[0]))
         return (not bad), (f'route {m} {p} is registered and unchecked' if bad else 'route absent or classified')
+    if 'history' in obj:
+        op, caller, target, r1, r2 = obj['history']
+        r = run_history((tuple(op), caller, target, tuple(r1) if r1 else None, tuple(r2)))
+        return (not r['viol']), ('; '.join(m for _, m in r['viol']) or f'no violation: {" ; ".join(r["steps"])}')
     r = run_case(tuple(obj['case']))
     return (not r['viol']), ('; '.join(m for _, m in r['viol']) or f'no violation ({r["status"]})')
